@@ -267,11 +267,11 @@ func buildPKI(mats map[string]*material, now time.Time) (*pki, error) {
 	p.rootPEM = pem.EncodeToMemory(&pem.Block{Type: "CERTIFICATE", Bytes: root.Raw})
 	type spec struct {
 		status, mat string
-		issuer     *x509.Certificate
-		key        *ecdsa.PrivateKey
-		nb, na     time.Time
-		usage      x509.KeyUsage
-		tail       []byte
+		issuer      *x509.Certificate
+		key         *ecdsa.PrivateKey
+		nb, na      time.Time
+		usage       x509.KeyUsage
+		tail        []byte
 	}
 	for _, s := range []spec{
 		{"valid", "p256X", inter, interKey, now.Add(-time.Hour), now.Add(48 * time.Hour), x509.KeyUsageDigitalSignature, interDER},
